@@ -553,8 +553,8 @@ ReqEv ==
   /\ presented' = IF E.cookie = "none" THEN presented ELSE presented \cup {E.cookie}
   /\ UNCHANGED <<now, sc, flt, logins, consumed, dead, codes, idtok, rtl, latest, lastUse, stored, gone, bound, lastStored, attok, br, viol, drift, fired>>
 
-\* a store call that was parked in the middle (lin > 0) had made its reads by the time it parked
-Note(n) == [chk EXCEPT ![n].evs = Append(@, [e |-> E, at |-> now, i |-> IF E.ev = "store" /\ E.lin > 0 THEN E.lin ELSE l])]
+\* a store call that was parked in the middle had made its reads by the time it parked, E.lin (> 0) lines before this event
+Note(n) == [chk EXCEPT ![n].evs = Append(@, [e |-> E, at |-> now, i |-> IF E.ev = "store" /\ E.lin > 0 THEN l - E.lin ELSE l])]
 
 StoreEv ==
   /\ E.ev = "store"
